@@ -24,20 +24,37 @@ pub fn verif_as_path(p: &PathBuf) -> (r: &Path)
 pub struct LanguageParser { p: std::rc::Rc<std::cell::RefCell<Box<dyn std::any::Any>>> }
 
 // ---- the base name of a path --------------------------------------------------------------------
-/// `path.file_name()?.to_str()?` as a function of the path: the final component as text, `None` if
-/// the path ends in `..`/has no final component or the name is not valid Unicode (std docs of
-/// `Path::file_name` and `OsStr::to_str`). Uninterpreted: B6 is proved for every such function, so
-/// "whatever else the directories contain" (C16) is the fact that only `base_name` is ever read.
+/// The base name of a path as text: the final component, converted lossily when it is not valid
+/// Unicode (`OsStr::to_string_lossy`); `None` only if the path has no final component (it ends in
+/// `..` or is a root; std doc of `Path::file_name`). C16 speaks about "the file name's extension ...
+/// whatever else the base name or directories contain": an invalid byte elsewhere in the name does not
+/// take the extension away. Uninterpreted: B6 is proved for every such function, so "whatever else the
+/// directories contain" is the fact that only `base_name` is ever read.
 pub uninterp spec fn base_name(p: PathBuf) -> Option<Seq<char>>;
+/// whether the final component is valid Unicode (`OsStr::to_str` is `Some`)
+pub uninterp spec fn base_name_is_unicode(p: PathBuf) -> bool;
 
 pub open spec fn blocks_opt_view(o: Option<&str>) -> Option<Seq<char>> {
     match o { Some(x) => Some(x@), None => None }
 }
 
-/// E13 shim, body = the identical std calls.
+pub open spec fn blocks_opt_string_view(o: Option<String>) -> Option<Seq<char>> {
+    match o { Some(x) => Some(x@), None => None }
+}
+
+/// E13 shim for `p.file_name()?.to_string_lossy()` (a `Cow<str>`, outside the subset: handed over as a
+/// `String`), body = the identical std calls.
+#[verifier::external_body]
+pub fn verif_path_base_name_lossy(p: &Path) -> (r: Option<String>)
+    ensures blocks_opt_string_view(r) == base_name(*p),
+{ Some(p.file_name()?.to_string_lossy().into_owned()) }
+
+/// E13 shim for `p.file_name()?.to_str()`: the STRICT conversion, `None` for a name that is not valid
+/// Unicode (std doc of `OsStr::to_str`) -- a different function from the lossy one above, so that code
+/// which uses it where C16 needs the extension of every name does not verify by accident.
 #[verifier::external_body]
 pub fn verif_path_base_name<'a>(p: &'a Path) -> (r: Option<&'a str>)
-    ensures blocks_opt_view(r) == base_name(*p),
+    ensures blocks_opt_view(r) == (if base_name_is_unicode(*p) { base_name(*p) } else { None }),
 { p.file_name()?.to_str() }
 
 // ---- byte offsets of a `str` (columns of `match_indices` / slicing are BYTE offsets) ------------
